@@ -592,7 +592,7 @@ class Tree:
         pre = []
         for p, role, idx, child in self.ancestors(n):
             k = p.get("k")
-            if k == "closure":
+            if k == "closure" and not p.get("ckind", "").startswith("Coroutine"):
                 break
             if k == "block" and role == "stmts":
                 pre = p["stmts"][:idx] + pre
@@ -616,7 +616,7 @@ class Tree:
         out = []
         for p, role, idx, child in self.ancestors(n):
             k = p.get("k")
-            if k == "closure":
+            if k == "closure" and not p.get("ckind", "").startswith("Coroutine"):
                 out.append(("closure", p, None))
             if k == "if" and role == "then":
                 out.append(("if", p["cond"], True))
@@ -672,8 +672,11 @@ def unconditional(n):
             continue
         if k == "match":
             stack.append(x["scrut"])
-            if x.get("src") in ("try", "await"):
-                pass
+            if x.get("src") not in ("try", "await", "for"):
+                # when every other arm diverges, completing normally means the remaining arm's body was evaluated
+                live = [a for a in x["arms"] if not diverges(a["body"])]
+                if len(live) == 1 and len(x["arms"]) >= 2:
+                    stack.append(live[0]["body"])
             continue
         if k == "binary" and x.get("op") in ("And", "Or"):
             stack.append(x["l"])
@@ -762,9 +765,19 @@ def exits(h):
     Returns [(node, outcome_str)] where node is the returned expression."""
     r = root(h)
     out = []
+    # `let x = { .. }; x` (e.g. the `__ret` binding of #[async_trait]): the block's tails are the exits
+    let_init = {}
+    for x in walk(r):
+        if x.get("k") == "let" and x.get("init") is not None and x["pat"].get("k") == "bind":
+            let_init.setdefault(x["pat"]["id"], []).append(x["init"])
 
     def tails(n):
         n0 = n
+        if isinstance(n, dict) and n.get("k") == "path" and "local" in n.get("res", {}):
+            inits = let_init.get(n["res"]["id"], [])
+            if len(inits) == 1 and strip(inits[0]).get("k") in ("block", "if", "match"):
+                tails(inits[0])
+                return
         n = strip(n) if isinstance(n, dict) and n.get("k") in ("addrof",) else n
         if not isinstance(n, dict):
             return
@@ -785,6 +798,9 @@ def exits(h):
         if k == "closure" and n.get("ckind", "").startswith("Coroutine"):
             tails(n["body"])
             return
+        if k == "call" and (n.get("fn") or "").endswith("Box::pin") and n.get("args") and strip(n["args"][0]).get("k") == "closure" and strip(n["args"][0]).get("ckind", "").startswith("Coroutine"):
+            tails(strip(n["args"][0])["body"])
+            return
         if k in ("ret", "break", "continue"):
             return
         out.append(n0)
@@ -795,7 +811,9 @@ def exits(h):
             # skip the desugared `?` returns
             if x.get("exp") and strip(x["e"]).get("k") == "call" and "from_residual" in (strip(x["e"]).get("fn") or ""):
                 continue
-            enc_closure = False
+            # the never-taken `if let Some(__ret) = None { return __ret }` of #[async_trait]
+            if x.get("exp") and local_name(x["e"]) == "__ret":
+                continue
             out.append(x["e"])
     return [(n, outcome(n)) for n in out]
 
